@@ -5,6 +5,7 @@ ids=[json.loads(l)['id'] for l in open('/verif/properties.jsonl')]
 GOSIM_NOTE=("Trusted base: the gosim rewriter and runtime (channel/select/sync/context/time/virtual-net semantics, checked by the litmus tests in gosim/rt), "
  "a sequentially consistent scheduler with code between visible operations atomic, encoding/json, crypto/tls and the Go compiler. "
  "Values outside the stated alphabets and schedules beyond the stated deviation bound are not covered.")
+NATIVE_NOTE=" A second, native part runs the real tcp and WebSocket listeners over loopback sockets: 17 scripted client behaviours (garbage, non-session first, bad first envelope, unoffered scheme, silence, upgrade variants, plain or half HTTP requests), each followed by Server.Close; the client's socket must see the connection end, ListenAndServe must return ErrServerClosed, no library or net/http goroutine and no callback may remain (inputs enumerated, one OS schedule each)."
 checks={
  "C20": dict(level="model_checking", engine="gosim", design="4/C20",
    text="Exhaustive enumeration of handler tables x inbound sequences x schedules (deviation-bounded, with Mazurkiewicz-trace pruning) of the real Server/Client dispatch loop under a controlled scheduler, each execution compared with a first-match reference model.",
@@ -17,7 +18,7 @@ for pid,txt in {
  "C07":"Same script tree; the emitted session envelopes are checked against the protocol order regular expression, the single session id, the server node as sender, monotonic State(), and fail-closed behaviour (failed+reason, nothing after, connection closed) for every in-exchange violation the reference model identifies.",
  "C09":"Same script tree over the full configuration lattice with real crypto/tls over the virtual connection: offered lists equal configured-and-supported in configuration order, confirmation only for an offered pair, and nothing travels in cleartext after a confirmed tls negotiation.",
  "C10":"Script tree restricted to configurations without 'none' on a TLS-capable connection, including clients that skip or refuse negotiation: Authenticate, authentication requests and established envelopes are only ever observed under TLS.",
- "C14":"Script tree against the real Server over virtual connections: every path that does not reach established must end with the connection closed by the server (client observes EOF), no per-connection goroutine left, and neither callback fired.",
+ "C14":"Script tree against the real Server over virtual connections: every path that does not reach established must end with the connection closed by the server (client observes EOF), no per-connection goroutine left, and neither callback fired. A scripted WebSocket peer (text frames over a real opening handshake on a virtual pipe) runs the same tree against the real Server."+NATIVE_NOTE,
 }.items():
     checks[pid]=dict(level="model_checking",engine="gosim",design="4/"+pid,text=txt,technique=HS_TECH)
 checks["C08"]=dict(level="model_checking",engine="gosim",design="4/C08",
@@ -38,7 +39,7 @@ checks["C16"]=dict(level="fault_enumeration",engine="seqx",design="4/C16",note=S
   technique="bounded-exhaustive enumeration of envelope sizes x stream positions x delivery plans over a passive scripted connection driving the real transport; byte-budget oracle",
   text="Streams of 1-4 exactly sized envelopes (sizes around L, 2L and far above, limits 64/256/1024 and the default) under every delivery plan (per envelope, coalesced, every split into up to 3 reads, byte by byte) through the real tcpTransport: no Receive consumes more than the limit, nothing above twice the limit is returned, everything within the limit is accepted wherever it stands in the stream; plus limit propagation through the real listener/dialer on loopback.")
 checks["C18"]=dict(level="model_checking",engine="gosim",design="4/C18",technique=SCHED_TECH,
-  text="A real Server with 1-2 real clients (TCP transport over virtual pipes, optionally an in-process listener) is closed at a stage chosen as data (start-up, dialled, established, traffic handled) and at every position the bounded scheduler can reach around it; ListenAndServe must return ErrServerClosed, nothing may panic or be left behind, established clients must observe finished, and the Established/Finished callbacks must pair up exactly once per established session, around its handlers.")
+  text="A real Server with 1-2 real clients (TCP transport over virtual pipes, optionally an in-process listener) is closed at a stage chosen as data (start-up, dialled, established, traffic handled) and at every position the bounded scheduler can reach around it; ListenAndServe must return ErrServerClosed, nothing may panic or be left behind, established clients must observe finished, and the Established/Finished callbacks must pair up exactly once per established session, around its handlers. WebSocket clients and sessions ended from inside the Established callback are included."+NATIVE_NOTE)
 checks["C19"]=dict(level="model_checking",engine="gosim",design="4/C19",technique=SCHED_TECH,
   text="A real Client against a real Server over per-dial virtual TCP connections suffers each fault kind (server finish/fail, abrupt close, half-close, undecodable bytes, non-envelope JSON, oversized envelope) idle or concurrently with a send, at every position within the deviation bound; afterwards a fresh session must exist, a server message must reach the handler, no goroutine may spin, successful sends must have hit the wire of a live session, and Close must leave nothing behind.")
 checks["C17"]=dict(level="model_checking",engine="gosim",design="4/C17",technique=SCHED_TECH,
